@@ -253,58 +253,79 @@ def enterParam (path : Str) (leaf : Bool) (st : St) : St :=
 
 def isLeafNode (n : Node) : Bool := n.statics.isEmpty && n.param.isNone && n.any.isNone
 
+/-- (1) "Finish routing if is no request path remaining to search": remember the node as best
+    match when it has handlers, and match the method (or the custom not-found record of a node
+    without handlers) -/
+def nodeEnd (m : Str) (ms : List (Str × RouteMethod)) (nf : Option RouteMethod) (op : Str)
+    (atEnd : Bool) (st : St) : St × Option RouteMethod :=
+  let st := if atEnd ∧ !ms.isEmpty ∧ st.best.isNone then { st with best := some ⟨ms, nf, op⟩ } else st
+  (st, if atEnd then (if !ms.isEmpty then findMethod ms m else nf) else none)
+
+/-- where the Find loop goes on after a block -/
+inductive Next where
+  | hit (rm : RouteMethod)
+  | param | any | leave
+deriving Repr, Inhabited
+
+/-- `previous.kind + 1` of `backtrackToNextNodeKind` (leaving an any node: keep backtracking) -/
+def nextAfter : Kind → Next
+  | .static => .param
+  | .param => .any
+  | .any => .leave
+
+/-- outcome of the Static block given the visit of the matching static child (if any) -/
+def staticBlock (r : Option (Kind × St × Res)) (st : St) : St × Next :=
+  match r with
+  | some (_, st', .hit rm) => (st', .hit rm)
+  | some (ck, st', .leave) => (st', nextAfter ck)
+  | none => (st, .param)
+
+/-- outcome of the Param block given the visit of the param child (if any) -/
+def paramBlock (r : Option (St × Res)) (st : St) : St × Next :=
+  match r with
+  | some (st', .hit rm) => (st', .hit rm)
+  | some (st', .leave) => (st', .any)
+  | none => (st, .any)
+
+/-- `backtrackToNextNodeKind(anyKind)` out of a node of kind `k` -/
+def leaveOut (k : Kind) (preLen : Nat) (st : St) : St × Res :=
+  if st.panicked then (st, .leave) else (leaveRestore k preLen st, .leave)
+
+/-- the Any block and the exit of the node -/
+def finishNode (path : Str) (m : Str) (k : Kind) (preLen : Nat) (an : Option Node) (st : St) :
+    Next → St × Res
+  | .hit rm => (st, .hit rm)
+  | .leave => leaveOut k preLen st
+  | _ =>
+    match anyBlock path m an st with
+    | (st', some rm) => (st', .hit rm)
+    | (st', none) => leaveOut k preLen st'
+
 mutual
 /-- one visit of a node by the Find loop, from the prefix comparison to the moment the loop
     either breaks with a match or backtracks out of the node -/
 def findNode (path : Str) (m : Str) : Node → St → St × Res
   | .mk k pre ms nf op _pc statics pa an, st =>
     if st.panicked then (st, .leave) else
-    let search0 := path.drop st.si
-    let l := if k = .static then lcp search0 pre else 0
+    let l := if k = .static then lcp (path.drop st.si) pre else 0
     let pl := if k = .static then pre.length else 0
     if l ≠ pl then (st, .leave)           -- backtrack(staticKind): nothing to restore
     else
       let st := { st with si := st.si + l }
-      let atEnd := (path.drop st.si).isEmpty
-      -- "Finish routing if is no request path remaining to search"
-      let st := if atEnd ∧ !ms.isEmpty ∧ st.best.isNone then { st with best := some ⟨ms, nf, op⟩ } else st
-      let early : Option RouteMethod :=
-        if atEnd then (if !ms.isEmpty then findMethod ms m else nf) else none
-      match early with
-      | some rm => (st, .hit rm)
-      | none =>
+      match nodeEnd m ms nf op (path.drop st.si).isEmpty st with
+      | (st, some rm) => (st, .hit rm)
+      | (st, none) =>
         -- Static block
-        let (st, blk, res) : St × Nat × Option RouteMethod :=
-          match path.drop st.si with
-          | c :: _ =>
-            match findStatic path m c statics st with
-            | some (_, st', .hit rm) => (st', 3, some rm)
-            | some (ck, st', .leave) => (st', (match ck with | .static => 1 | .param => 2 | .any => 3), none)
-            | none => (st, 1, none)
-          | [] => (st, 1, none)
-        match res with
-        | some rm => (st, .hit rm)
-        | none =>
-          -- Param block
-          let (st, blk, res) : St × Nat × Option RouteMethod :=
-            if blk ≤ 1 ∧ !(path.drop st.si).isEmpty then
-              match findParam path m pa st with
-              | some (st', .hit rm) => (st', 3, some rm)
-              | some (st', .leave) => (st', 2, none)
-              | none => (st, 2, none)
-            else (st, max blk 2, none)
-          match res with
-          | some rm => (st, .hit rm)
-          | none =>
-            -- Any block
-            let (st, res) : St × Option RouteMethod :=
-              if blk ≤ 2 then anyBlock path m an st else (st, none)
-            match res with
-            | some rm => (st, .hit rm)
-            | none =>
-              if st.panicked then (st, .leave) else
-              -- backtrack(anyKind) out of this node
-              (leaveRestore k pre.length st, .leave)
+        match (match path.drop st.si with
+               | c :: _ => staticBlock (findStatic path m c statics st) st
+               | [] => (st, Next.param)) with
+        | (st, .param) =>
+          -- Param block (needs a non-empty rest of the path)
+          if (path.drop st.si).isEmpty then finishNode path m k pre.length an st .any
+          else
+            match paramBlock (findParam path m pa st) st with
+            | (st, nx) => finishNode path m k pre.length an st nx
+        | (st, nx) => finishNode path m k pre.length an st nx
 def findStatic (path : Str) (m : Str) (c : Char) : List Node → St → Option (Kind × St × Res)
   | [], _ => none
   | n :: ns, st =>
